@@ -88,6 +88,14 @@ def run(ctx: core.Ctx):
                             f"(system {e['vsys']:.6g} L/s); requested {want:.6g} kg/s (system {want_sys:.6g} L/s)",
                             {"cfg": r["cfg"], "evaluation": e, "requested_mass_flow_per_borehole": want})
                 break
+        # two DIFFERENT candidate fields at the same height cannot have the same excess to the last bit: the second was not simulated
+        evs = [e for e in r.get("evals", []) if e.get("nbh")]
+        for e1, e2 in zip(evs, evs[1:]):
+            if e1["nbh"] != e2["nbh"] and e1["h"] == e2["h"] and e1["excess"] == e2["excess"] and e1.get("max_eft") == e2.get("max_eft") and abs(e1["excess"]) > 0:
+                ctx.finding("candidate-not-simulated", f"{g}: consecutive evaluations of a {e1['nbh']}-borehole and a {e2['nbh']}-borehole field at H={e1['h']} logged the identical excess {e1['excess']!r} "
+                            f"(descriptors {e1.get('spec')} / {e2.get('spec')}): the second field was not simulated",
+                            {"cfg": r["cfg"], "loads": {"profile": cfg["profile"], "scale": cfg["scale"]}, "evaluations": [e1, e2]})
+                break
         if r["outcome"] != "design":
             continue
         esc = designlib.is_escape(r)
@@ -199,6 +207,8 @@ def synthetic_streams(ctx):
                 if "search-model-correspondence" not in ctx.broken:
                     ctx.broken.append("search-model-correspondence")
                     ctx.extra["first_disagreement"] = {"case": c, "real": r, "model": model[idx]}
+        if kind == "b1d":
+            searchlib.check_b1d_exchanger(ctx, a, out_r)
         if not out_r.startswith("selected"):
             continue
         ctx.count("synthetic:" + kind + ":selected")
